@@ -151,7 +151,7 @@ def run(ctx):
         cases += 1
     # 3. a trained ruleset: config lists = files on disk; OMEN loaders of guesser and scorer agree
     for rep in range(ctx.scale(2, 8)):
-        enc = rng.choice(['utf-8', 'cp1251'])
+        enc = ['utf-8', 'cp1251', 'koi8-r', 'latin-1'][rep % 4] if rep % 4 != 3 else 'cp1251'
         letters = 'abcdeXY12!' + ('яж' if True else '')
         pws = []
         for _ in range(rng.randint(8, 30)):
